@@ -432,9 +432,24 @@ func runC17Dec(c *Ctx) Result {
 		sd, isSD := dec.(*decoder.StreamDecoder)
 		if isSD {
 			if interleave {
-				sd.More()
-				io.ReadAll(sd.Buffered())
+				more := sd.More()
+				off := int(sd.InputOffset())
+				bb, _ := io.ReadAll(sd.Buffered())
 				c.inc("interleaved_more_buffered")
+				// More / InputOffset / Buffered are exercised between Decodes because they move the
+				// same cursors; what they RETURN is not part of the property (the statement is about
+				// the values and the terminal condition), so it is counted, never reported: e.g.
+				// blanks before a clean end of stream are dropped from the buffer without being
+				// counted by InputOffset
+				if !rd.errSeen {
+					i := len(got)
+					if off < 0 || off > rd.pos || string(bb) != string(data[off:rd.pos]) {
+						c.inc("observed_offset_and_buffered_disagree")
+					}
+					if (i < len(modelVals) && !more) || (i == len(model.frames) && model.term == 0 && more) {
+						c.inc("observed_more_disagrees_with_model")
+					}
+				}
 			}
 			callsBefore, offBefore = rd.calls, sd.InputOffset()
 		}
@@ -690,16 +705,39 @@ func runC17Enc(c *Ctx) Result {
 	viaConfig := t.Draw(simrt.Knobs, 3) == 0
 	faults := t.Draw(simrt.Knobs, 2) == 1
 
+	// the settings may be switched between calls on the same encoder (SetIndent / SetEscapeHTML)
+	switching := t.Draw(simrt.Knobs, 3) == 0
+	indentAt, htmlAt := make([]bool, n), make([]bool, n)
+	for i := range vals {
+		indentAt[i], htmlAt[i] = indent, opts&encoder.EscapeHTML != 0
+		if switching && i > 0 {
+			indentAt[i], htmlAt[i] = indentAt[i-1], htmlAt[i-1]
+			switch t.Draw(simrt.Knobs, 4) {
+			case 0:
+				indentAt[i] = !indentAt[i]
+			case 1:
+				htmlAt[i] = !htmlAt[i]
+			}
+		}
+	}
+	// pooled encoder buffers: values on both sides of the limit above which a buffer is not recycled
+	option.LimitBufferSize = []uint{1 << 20, 0, 16, 512, 4096}[t.Draw(simrt.Knobs, 5)]
+	defer func() { option.LimitBufferSize = 1 << 20 }()
+
 	// reference: Marshal's bytes (+ newline)
 	var exp [][]byte
 	total := 0
-	for _, v := range vals {
+	for i, v := range vals {
 		var b []byte
 		var err error
-		if indent {
-			b, err = encoder.EncodeIndented(v, ">", "  ", opts)
+		o := opts &^ encoder.EscapeHTML
+		if htmlAt[i] {
+			o |= encoder.EscapeHTML
+		}
+		if indentAt[i] {
+			b, err = encoder.EncodeIndented(v, ">", "  ", o)
 		} else {
-			b, err = encoder.Encode(v, opts)
+			b, err = encoder.Encode(v, o)
 		}
 		if err != nil {
 			return Result{Sig: "", Detail: "reference encode failed: " + err.Error()}
@@ -754,6 +792,20 @@ func runC17Enc(c *Ctx) Result {
 	}
 	var want []byte
 	for i, v := range vals {
+		if switching && i > 0 {
+			if indentAt[i] != indentAt[i-1] {
+				if indentAt[i] {
+					enc.SetIndent(">", "  ")
+				} else {
+					enc.SetIndent("", "")
+				}
+				c.inc("enc_settings_switched_between_calls")
+			}
+			if htmlAt[i] != htmlAt[i-1] {
+				enc.SetEscapeHTML(htmlAt[i])
+				c.inc("enc_settings_switched_between_calls")
+			}
+		}
 		err := enc.Encode(v)
 		want = append(want, exp[i]...)
 		if w.failed {
